@@ -237,6 +237,25 @@ func runC15(r *run) {
 				}
 			}
 		}
+		if g.chance(1, 3) {
+			// the process-wide debug mode flips after the handler has answered once (through the flag itself or through
+			// SetLevel(DebugLevel) on an unrelated logger): the handler keeps answering as the logger's gate does
+			if is.DebugMode() || g.chance(1, 2) {
+				is.SetDebugMode(!is.DebugMode())
+			} else {
+				slog.New("c15unrelated").SetLevel(slog.DebugLevel)
+			}
+			for _, sl := range []int{-4, 0, 4, 8, -8, 2, 12, 16} {
+				got := h.Enabled(ctx, logslog.Level(sl))
+				r.emit(fmt.Sprintf("C15 E %d %s %d", int(lg.l.Level()), b01(is.DebugMode()), sl), b01(got))
+				if std := c15StdName(sl); std != "" {
+					if want := lg.l.Enabled(slog.Level(map[string]int{"debug": 5, "info": 4, "warning": 3, "error": 2}[std])); got != want {
+						r.violate(violation{What: "after the process-wide debug mode changed the handler's Enabled no longer answers as the logger's gate does",
+							Input: map[string]any{"options": fmt.Sprintf("%+v", *opts), "logger_level": int(lg.l.Level()), "debug_mode_now": is.DebugMode(), "logslog_level": sl}, Expected: fmt.Sprint(want), Actual: fmt.Sprint(got)})
+					}
+				}
+			}
+		}
 		for call := 0; call < 4; call++ {
 			sl := c15SlogLevels[g.intn(len(c15SlogLevels))]
 			msg := strings.NewReplacer("<", "(", "&", "+").Replace(g.encMessage(true, false))
@@ -367,6 +386,14 @@ func runC15(r *run) {
 					nmsg = len(msgs) + 4
 				}
 				for k := 0; k < nmsg; k++ {
+					if k > 0 && g.chance(1, 3) {
+						// the process-wide debug mode flips between two messages through the same bridge
+						if is.DebugMode() || g.chance(1, 2) {
+							is.SetDebugMode(!is.DebugMode())
+						} else {
+							slog.New("c15unrelated").SetLevel(slog.DebugLevel)
+						}
+					}
 					m := msgs[g.intn(len(msgs))]
 					if k >= len(msgs) || g.chance(1, 4) {
 						m = strings.NewReplacer("<", "(", "&", "+").Replace(g.encMessage(true, false))
